@@ -43,6 +43,26 @@ pub fn emit_tables<T: Sc>(out: &mut Out, recipe: &Recipe, alpha: &[T]) {
 /// this step, measured in f64: ‖A − UΣVᵀ‖_max/‖A‖_max, ‖UᵀU − 1‖_max, ‖VᵀV − 1‖_max.  The driver
 /// uses it as the backward error of the SVD *oracle* in its perturbation bounds (the library does
 /// not expose its decomposition; the matrix and the routine are the same, so is the result).
+/// does the library's SVD routine break down (singular values that are not finite) on the FINITE
+/// matrix diag(w)·a ?  (the routine is an oracle of the model: its breakdown is reported)
+pub fn svd_breaks<T: Sc>(a: &DMatrix<T>, w: &Option<Vec<T>>) -> bool {
+    let mut a = a.clone();
+    if let Some(w) = w {
+        if w.len() != a.nrows() {
+            return false;
+        }
+        for j in 0..a.ncols() {
+            for i in 0..a.nrows() {
+                a[(i, j)] = a[(i, j)] * w[i];
+            }
+        }
+    }
+    if a.nrows() == 0 || a.ncols() == 0 || !a.iter().all(|v| v.is_finite()) {
+        return false;
+    }
+    !a.svd_unordered(true, true).singular_values.iter().all(|v| v.is_finite())
+}
+
 pub fn emit_svdq<T: Sc>(out: &mut Out, recipe: &Recipe, alpha: &[T], w: &Option<Vec<T>>) {
     let mut a = recipe.phi::<T>(alpha);
     if let Some(w) = w {
@@ -58,7 +78,15 @@ pub fn emit_svdq<T: Sc>(out: &mut Out, recipe: &Recipe, alpha: &[T], w: &Option<
     if a.nrows() == 0 || a.ncols() == 0 || !a.iter().all(|v| v.is_finite()) {
         return;
     }
-    let svd = a.clone().svd(true, true);
+    // the library's SVD routine can break down on a finite matrix whose entries span very many
+    // orders of magnitude (NaN singular values); the library discards such a decomposition. The
+    // routine is an oracle of the model, so its breakdown is reported to the driver.
+    let mut svd = a.clone().svd_unordered(true, true);
+    if !svd.singular_values.iter().all(|v| v.is_finite()) {
+        out.line(" svdq nonfinite");
+        return;
+    }
+    svd.sort_by_singular_values();
     let (u, vt) = match (svd.u.as_ref(), svd.v_t.as_ref()) {
         (Some(u), Some(vt)) => (u.map(|v| v.f()), vt.map(|v| v.f())),
         _ => return,
@@ -431,6 +459,21 @@ pub fn extreme_case<T: Sc>(rng: &mut Rng, idx: usize) -> StateCase<T> {
         hist.push(a);
     }
     c.history = hist;
+    // one in five: FINITE basis matrices at the edge of the floating point range (the SVD routine
+    // itself can break down there), between ordinary parameters
+    if idx % 5 == 2 {
+        let (recipe, ordinary, edge) = crate::gen::range_edge_family(rng, T::WIDTH == 32);
+        let s = c.y.ncols();
+        c.recipe = recipe;
+        c.y = random_data::<T>(rng, &c.recipe, s, false);
+        c.w = c.w.as_ref().map(|_| (0..c.recipe.n()).map(|_| T::of(rng.uniform(0.5, 2.0))).collect());
+        let o: Vec<T> = ordinary.iter().map(|v| T::of(*v)).collect();
+        let e: Vec<T> = edge.iter().map(|v| T::of(*v)).collect();
+        let e2: Vec<T> = edge.iter().enumerate().map(|(k, v)| T::of(if k == 1 { *v * 1.03125 } else { *v })).collect();
+        c.init = o.iter().map(|v| *v * T::of(1.0625)).collect();
+        c.history = vec![e.clone(), o.clone(), e2, e, o];
+        c.origin = "extreme";
+    }
     c
 }
 
